@@ -373,6 +373,13 @@ def rule_flow(ctx):
                     okreach = True
     ctx.check(okreach, "R3", "process_tcp_packet:tracked-reaches-reader", "a tracked flow always reaches add_bytes",
               "a segment of a tracked flow can bypass the reader", ctx.loc(b, ablk))
+    rule_tls_gate(ctx)
+
+
+def rule_tls_gate(ctx):
+    """R3: what `is_tls_traffic` admits as the start of a flow: 5 bytes, handshake content type, record versions 0x0300 ..= 0x0304 - a
+    ClientHello the gate refuses is never fingerprinted (shared with C04)"""
+    P = ctx.program
     # is_tls_traffic: handshake type 0x16 and version 0x0300..=0x0304, needs 5 bytes
     tb = P.body("huginn_net_tls::tls_process::is_tls_traffic")
     ST = T.Slicer(tb, P)
